@@ -35,6 +35,16 @@ pub fn scenarios(prop: &str, tier: &str) -> Vec<Scenario> {
         return scenarios_c04(tier);
     }
     let mut out = Vec::new();
+    if prop == "C05" {
+        // the bounded spaces of C04 (angular intervals wider than pi, cones, compounds): whatever a
+        // planner does with a steered state that leaves the bounds must not lengthen the edge
+        for mut sc in scenarios_c04(tier) {
+            if sc.tag.contains("x0.3") || (thorough && sc.tag.contains("x1/")) {
+                sc.tag = sc.tag.replacen("C04/", "C05/bounded/", 1);
+                out.push(sc);
+            }
+        }
+    }
     for kit in KITS {
         let b = base_of(kit);
         let mut worlds: Vec<WorldSpec> = Vec::new();
@@ -121,6 +131,55 @@ pub fn scenarios(prop: &str, tier: &str) -> Vec<Scenario> {
                 }
             }
         }
+        // problem definitions with a SECOND start state (the planners plan from the first; whatever
+        // they do with the others must not put an unchecked or foreign state on the path): one world,
+        // one step, every planner; the extra start sits on the far side of the first obstacle
+        if matches!(prop, "C01" | "C02" | "C03" | "C05") {
+            let w = b.world_named("subset0001", vec![b.obstacles[0].clone()]);
+            for pk in Pk::ALL {
+                for extra in [b.sub3[1] as usize, b.sub3[2] as usize] {
+                    let mut sc = b.scenario(w.clone(), b.params(pk, if pk == Pk::Prm { 1.6 } else { 1.0 }, 2.5, 0.0), &format!("{prop}/{kit}/subset0001/{}/two-starts{extra}", pk.name()));
+                    sc.extra_starts = vec![b.alphabet[extra].clone()];
+                    out.push(sc);
+                }
+            }
+        }
+        if prop == "C01" {
+            // the start already satisfies the goal: valid (goal sample 0) and rejected by the checker
+            // (goal sample 1, which the goal-overlap obstacle covers) - the latter must be reported as an
+            // invalid start by every planner, whatever shortcut a planner takes for trivial queries
+            for (nm, gi) in [("start-in-goal-valid", 0usize), ("start-in-goal-invalid", 1usize)] {
+                for pk in Pk::ALL {
+                    let w = b.world_named("goal-overlap", vec![b.goal_overlap.clone()]);
+                    let mut sc = b.scenario(w, b.params(pk, if pk == Pk::Prm { 1.6 } else { 1.0 }, 1.5, 0.0), &format!("C01/{kit}/goal-overlap/{}/{nm}", pk.name()));
+                    sc.start = b.goal_samples[gi].clone();
+                    out.push(sc);
+                }
+            }
+            // RRT-Connect: the goal root is rejected by the checker AND the goal sampler fails at one of
+            // the following redraws (a finite list of goal configurations, a capped rejection sampler)
+            for k in [1usize, 2, 3] {
+                for kind in [0u8, 1] {
+                    let w = b.world_named("goal-overlap", vec![b.goal_overlap.clone()]);
+                    let mut sc = b.scenario(w, b.params(Pk::Connect, 1.0, 1.5, 0.0), &format!("C01/{kit}/goal-overlap/RRTConnect/root1/goal-sampler-fails@{k}/{kind}"));
+                    sc.goal_root = 1;
+                    sc.goal_fail_at = Some((k, kind));
+                    out.push(sc);
+                }
+            }
+        }
+        if prop == "C02" {
+            // a start the checker accepts but the space bounds reject: the path still begins at exactly
+            // that state (the planners must not "repair" the user's start)
+            if let Some((spec, start)) = out_of_bounds_start(&b) {
+                for pk in Pk::ALL {
+                    let mut sc = b.scenario(b.world_free(), b.params(pk, if pk == Pk::Prm { 1.6 } else { 1.0 }, 1.5, 0.0), &format!("C02/{kit}/free/{}/start-outside-bounds", pk.name()));
+                    sc.spec = spec.clone();
+                    sc.start = start.clone();
+                    out.push(sc);
+                }
+            }
+        }
         // C03: resolution far finer than the step (edges of 100 L and more). A cap on the number
         // of validity queries per motion, or any spacing derived from the step instead of L, shows
         // only here. Reduced alphabet (start + the 4-letter sub-alphabet) because one motion check
@@ -156,6 +215,38 @@ pub fn scenarios(prop: &str, tier: &str) -> Vec<Scenario> {
         }
     }
     out
+}
+
+/// A bounded version of the base space together with a start just outside those bounds (None where the
+/// base space has no bounds to leave).
+fn out_of_bounds_start(b: &Base) -> Option<(Spec, crate::kit::V)> {
+    use crate::kit::V;
+    match (&b.spec, &b.alphabet[b.start]) {
+        (Spec::Rv { dim, .. }, V::Rv(x)) => {
+            // the box starts a quarter unit to the right of the start state
+            let mut bounds = vec![(0.0, 4.0); *dim];
+            bounds[0] = (x[0] + 0.25, 4.0);
+            Some((Spec::Rv { dim: *dim, bounds: Some(bounds), frac: None }, V::Rv(x.clone())))
+        }
+        (Spec::So2 { .. }, V::So2(a)) => Some((Spec::So2 { bounds: Some((a + 0.125, 3.0)), frac: None }, V::So2(*a))),
+        (Spec::Cmp { parts, weights }, V::Cmp(c)) => {
+            let mut parts = parts.clone();
+            if let (Spec::Rv { dim, bounds, .. }, V::Rv(x)) = (&mut parts[0], &c[0]) {
+                let mut nb = vec![(0.0, 4.0); *dim];
+                nb[0] = (x[0] + 0.25, 4.0);
+                *bounds = Some(nb);
+                return Some((Spec::Cmp { parts, weights: weights.clone() }, V::Cmp(c.clone())));
+            }
+            None
+        }
+        (Spec::Se2 { weight, .. }, V::Cmp(c)) => {
+            if let V::Rv(x) = &c[0] {
+                return Some((Spec::Se2 { weight: *weight, bounds: Some(vec![(x[0] + 0.25, 4.0), (0.0, 4.0), (-PI, PI)]) }, V::Cmp(c.clone())));
+            }
+            None
+        }
+        _ => None,
+    }
 }
 
 /// C04: bounds lattice with in-bounds alphabets.
@@ -289,12 +380,21 @@ fn path_json<K: Kit>(p: &[K::S]) -> Value {
     json!(p.iter().map(|s| K::to_v(s).json()).collect::<Vec<_>>())
 }
 
+fn split_json() -> Value {
+    let k = crate::explore::SPLIT.with(|s| s.get());
+    if k == crate::explore::PRIOR_LIFE {
+        json!("prior-life")
+    } else {
+        json!(k)
+    }
+}
+
 fn replay_json<K: Kit>(prop: &str, tier: &str, idx: usize, sc: &Scenario, seq: &[u8], call: usize, path: Option<&[K::S]>, extra: Value) -> Value {
     if let Some(d) = crate::props_deep::current() {
         return json!({"kind": "deep", "prop": prop, "tier": tier, "deep": d, "call": call, "scenario": sc.json(), "path": path.map(|p| path_json::<K>(p)), "detail": extra});
     }
     json!({
-        "kind": "paths", "prop": prop, "tier": tier, "scenario_index": idx, "seq": seq, "call": call, "split": crate::explore::SPLIT.with(|s| s.get()),
+        "kind": "paths", "prop": prop, "tier": tier, "scenario_index": idx, "seq": seq, "call": call, "split": split_json(),
         "scenario": sc.json(), "path": path.map(|p| path_json::<K>(p)), "detail": extra,
     })
 }
@@ -650,7 +750,7 @@ pub fn replay(v: &Value) -> i32 {
     let seq: Vec<u8> = v["seq"].as_array().unwrap().iter().map(|x| x.as_u64().unwrap() as u8).collect();
     let all = scenarios(prop, tier);
     let sc = &all[idx];
-    let split = v["split"].as_u64().unwrap_or(0) as usize;
+    let split = if v["split"] == "prior-life" { crate::explore::PRIOR_LIFE } else { v["split"].as_u64().unwrap_or(0) as usize };
     let d1 = with_kit!(sc.kit, digest_of(sc, &seq, true));
     let d2 = with_kit!(sc.kit, digest_of(sc, &seq, true));
     if d1 != d2 {
